@@ -294,8 +294,10 @@ class Harness(object):
             s.SetEvaluationLimits(g, e, new=new)
         elif what == 'stepmon':
             s.SetGenerationMonitor(self.make_monitor(arg), new=bool(arg.get('new', False)))
+            self._stepmon_spec = dict(arg)
         elif what == 'evalmon':
             s.SetEvaluationMonitor(self.make_monitor(arg), new=bool(arg.get('new', False)))
+            self._evalmon_spec = dict(arg)
         elif what == 'objective':
             if arg:                               # a different objective from here on
                 self.cost = SimCost(arg)
@@ -373,6 +375,23 @@ class Harness(object):
                     self.run.observing = False
                 kw['constraints' if what == 'constraint' else 'penalty'] = peer
                 self.run.probe('step_keyword.%s' % what)
+        # Step(EvaluationMonitor=m) / Step(StepMonitor=m): the other two sticky keywords (equivalent to the Set*Monitor call with
+        # new=False, made from inside the Step that runs the next iteration)
+        for key, what, kwname in (('evalmon_kw', 'evalmon', 'EvaluationMonitor'), ('stepmon_kw', 'stepmon', 'StepMonitor')):
+            if key in op:
+                arg = dict(op[key]); arg['new'] = False
+                self._sticky_undo.append((what, getattr(self, '_%s_spec' % what, None)))
+                setattr(self, '_%s_spec' % what, arg)
+                synth = {'op': 'set', 'what': what, 'arg': arg, 'via': 'step_keyword'}
+                self.run.observing = True
+                try:
+                    for o in self.oracles:
+                        g = getattr(o, 'after_op', None)
+                        if g: g(self, synth, {})
+                finally:
+                    self.run.observing = False
+                kw[kwname] = self.make_monitor(arg)
+                self.run.probe('step_keyword.%s' % what)
         return kw
 
     def op_step(self, op):
@@ -394,6 +413,18 @@ class Harness(object):
                 # Step() found the solver already stopped and returned at once: keyword settings are only processed by an
                 # iteration that runs, so nothing was installed -- tell the oracles the previous setting is still in force
                 for what, old_peer in getattr(self, '_sticky_undo', []):
+                    if what in ('evalmon', 'stepmon'):
+                        setattr(self, '_%s_spec' % what, old_peer)
+                        if what == 'stepmon' or old_peer is None: continue      # (nothing the oracles keep per step monitor; no earlier monitor: base stays)
+                        synth = {'op': 'set', 'what': what, 'arg': dict(old_peer, new=False), 'via': 'step_keyword_not_processed'}
+                        self.run.observing = True
+                        try:
+                            for o in self.oracles:
+                                g = getattr(o, 'after_op', None)
+                                if g: g(self, synth, {})
+                        finally:
+                            self.run.observing = False
+                        continue
                     if what == 'constraint': self.constraint = old_peer
                     else: self.penalty = old_peer
                     synth = {'op': 'set', 'what': what, 'arg': (old_peer.spec if old_peer is not None else None), 'via': 'step_keyword_not_processed'}
